@@ -33,6 +33,7 @@ def dispatch (op : String) : Option (List String → List String → Option (Str
   | "mg.dist" => some mgDist
   | "mg.staged" => some mgStaged
   | "mg.ramp" => some mgRamp
+  | "mg.gauss" => some mgGauss
   | "dist" => some dist
   | "run" => some runOp
   | "cli" => some cliOp
@@ -51,6 +52,7 @@ def dispatch (op : String) : Option (List String → List String → Option (Str
   | "raterun.count" => some raterunOp
   | "raterun.newstart" => some raterunOp
   | "plan" => some plan
+  | "bfile" => some bfile
   | "gaussvol" => some gaussvol
   | "pipeline" => some pipelineOp
   | "calc.constant" => some (calcOp "constant")
